@@ -466,6 +466,26 @@ func V6OutOfRange() []Named {
 			}
 		}
 	}
+	// length-prefixed item lists (user class 15, vendor class 16, boot-file parameters 60): every sequence of up to
+	// three items over {empty, "a", "bc"} — empty items in every position
+	items := [][]byte{{0, 0}, {0, 1, 'a'}, {0, 2, 'b', 'c'}}
+	for n := 0; n <= 3; n++ {
+		tot := 1
+		for i := 0; i < n; i++ {
+			tot *= 3
+		}
+		for m := 0; m < tot; m++ {
+			var p []byte
+			x := m
+			for i := 0; i < n; i++ {
+				p = append(p, items[x%3]...)
+				x /= 3
+			}
+			add(fmt.Sprintf("user-class/%d/%d", n, m), top.Wrap(15, p))
+			add(fmt.Sprintf("vendor-class/%d/%d", n, m), top.Wrap(16, cat(be32(0x01020304), p)))
+			add(fmt.Sprintf("bootfile-param/%d/%d", n, m), top.Wrap(60, p))
+		}
+	}
 	// compressed names written out (the exhaustive name alphabets are a Range in Run)
 	ex := []byte{7, 'e', 'x', 'a', 'm', 'p', 'l', 'e', 3, 'c', 'o', 'm', 0}
 	for i, nm := range [][]byte{
